@@ -62,8 +62,12 @@ def run(ctx):
         else:
             w = fqe.Wavefunction([[n, sz, norb]])
         U.random_fill(w, rng, zero_p=0.0)
+        real_wfn = case % 4 == 3
+        if real_wfn:
+            # a real wavefunction: its density matrices are real arrays (float dtype), the generator may be complex
+            w.set_wfn(strategy="from_data", raw_data={k: (numpy.real(w.get_coeff(k)) + 1.0).astype(numpy.complex128) for k in w.sectors()})
         ents = U.wfn_entries(w)
-        desc = {"norb": norb, "sector": sorted(w.sectors()), "case": case}
+        desc = {"norb": norb, "sector": sorted(w.sectors()), "case": case, "real_wavefunction": real_wfn}
         try:
             res = bc.get_acse_residual_fqe(w, ham, norb)
         except Exception as exc:
@@ -121,6 +125,9 @@ def run(ctx):
         d2 = d2[numpy.ix_(perm, perm, perm, perm)]
         d3 = spec_rdm(d, norb, 0, ents, ents, "i^ j^ k^ l m n")
         d3 = d3[numpy.ix_(perm, perm, perm, perm, perm, perm)]
+        if real_wfn and not numpy.abs(numpy.imag(d2)).max() > 0 and not numpy.abs(numpy.imag(d3)).max() > 0:
+            d2, d3 = numpy.ascontiguousarray(numpy.real(d2)), numpy.ascontiguousarray(numpy.real(d3))
+            ctx.count("real-dtype-density-matrices")
         # two-body operators A = sum A[i,j,k,l] i^ j^ k l: antisymmetric and Hermitian (-> general, _symm and the
         # one-body _symm routes) or antisymmetric and anti-Hermitian (-> general and _antisymm routes), real or complex
         cplx = case % 2 == 1
@@ -264,7 +271,10 @@ def run(ctx):
                 and numpy.allclose(gen, -gen.transpose(3, 2, 1, 0).conj())):
             ctx.count(f"gdf:generator-not-admissible:{fam}")
             continue
-        desc = {"nso": nso, "case": case, "generator": fam}
+        # generators of any size: the factorisation is homogeneous, a small generator is a generator
+        gscale = [1.0, 1.0, 1e-6, 1e-9][case % 4] if case >= 0 else 1.0
+        gen = gen * gscale
+        desc = {"nso": nso, "case": case, "generator": fam, "scale": gscale}
         for method in (("svd", "takagi") if fam == "real" else ("takagi",)):
             try:
                 if method == "svd":
@@ -289,11 +299,11 @@ def run(ctx):
             want = U.spec_apply(d, norb, ents, gterms, 0)
             rterms = [(ob[p, q], [(p, 1), (q, 0)]) for p in range(nso) for q in range(nso) if ob[p, q] != 0]
             for fac, Vl, Ul in pairs:
-                if not (numpy.abs(Ul).max() > 1e-12 and numpy.abs(Vl).max() > 1e-12):
+                if not (numpy.abs(Ul).max() > 1e-12 * gscale ** 0.5 and numpy.abs(Vl).max() > 1e-12 * gscale ** 0.5):
                     continue
                 for p, q, r, s in itertools.product(range(nso), repeat=4):
                     c = fac * Vl[p, q] * Ul[r, s]
-                    if abs(c) > 1e-14:
+                    if abs(c) > 1e-14 * gscale:
                         rterms.append((c, [(p, 1), (q, 0), (r, 1), (s, 0)]))
             got = U.spec_apply(d, norb, ents, rterms, 0)
             diff = 0.0
@@ -303,12 +313,12 @@ def run(ctx):
                 diff = max(diff, abs(complex(float(a[0]), float(a[1])) - complex(float(b[0]), float(b[1]))))
             ctx.case(("gdf", method, case))
             ctx.count(f"gdf:{method}:{fam}")
-            if diff > 1e-8:
+            if diff > max(1e-8 * gscale, 1e-12):
                 ctx.disagree(f"gdf:{method}:reassembly" + ("" if fam == "real" else f":{fam.replace('-corpus', '')}"), f"one_body_op + sum V_l U_l differs from the generator on a random state by {diff:.2e}", desc)
             # normality of the returned one-body operators
             for M in normal_mats:
                 M = numpy.asarray(M)
-                if numpy.abs(M @ M.conj().T - M.conj().T @ M).max() > 1e-9:
+                if numpy.abs(M @ M.conj().T - M.conj().T @ M).max() > 1e-9 * max(gscale, 1e-30):
                     ctx.disagree(f"gdf:{method}:normality", "a returned one-body operator is not normal", desc)
                     break
 
